@@ -174,6 +174,14 @@ def loosen(evs):
 
 # ------------------------------------------------------------------ one scenario
 def run_scenario(job):
+    """one twin run; a harness exception (a command timing out on a loaded machine) is retried once"""
+    out = run_scenario_once(job)
+    if any(sig == "runner-exception" for sig, _ in out["failures"]):
+        out = run_scenario_once(job)
+    return out
+
+
+def run_scenario_once(job):
     """job = {"seed", "macros": [[name, params]…], "name"} → result dict (JSON-able)"""
     seed, macros = job["seed"], job["macros"]
     res = {"job": job, "failures": [], "ties": [], "tags": [], "nops": 0, "log": [], "good": None, "compared": {"WH": 0, "WB": 0}}
